@@ -23,12 +23,15 @@ LEAN_MODULES = ["DaskModel.Props.C20"]
 CASE_TIMEOUT_S = 20
 LEVEL_TEXT = (
     "Lean 4 theorems over a transliteration of normalize_slice, _slice_1d (integer, positive-step and "
-    "negative-step branches with the bisect shortcuts) and new_blockdim: for every list of chunk lengths "
-    "(zero-length chunks included) and every slice, normalisation preserves Python's selection and the "
-    "concatenation over the output blocks, in output order, of the in-block slices is exactly Python's "
-    "slice of the whole axis; block sizes reported lazily are the sizes of those pieces. The N-d case is "
-    "the per-axis product (theorem on index maps). Integer-list take, boolean masks, vindex and blocks[] "
-    "are validated against NumPy by the API-level correspondence, not proved."
+    "negative-step branches with the bisect shortcuts), new_blockdim, check/posify of integers and the planning "
+    "part of take: for every list of chunk lengths (zero-length chunks included) and every slice, normalisation "
+    "preserves Python's selection, the concatenation over the output blocks, in output order, of the in-block "
+    "slices is exactly Python's slice of the whole axis (slice1d_correct, getitem1d_correct), and the lazily "
+    "reported block sizes are the sizes of those pieces and sum to the selection length (newBlockdim_correct); an "
+    "integer index addresses the right block and offset; take's no-op shortcut fires exactly for the full arange "
+    "and its regrouping keeps the indexer (take_den). Validated against NumPy, not proved: the N-d product of the "
+    "per-axis plans, the per-source-block split/merge inside _shuffle, boolean masks, dask-array indexers, vindex, "
+    "blocks[]."
 )
 LEVEL_NOTE = (
     "Trusted: Lean kernel; the hand-written model (diffed against the real functions on every run: "
@@ -413,8 +416,6 @@ def _apind_class(inp, x, got):
     fancy = any(k in FANCY for k in kinds)
     if "none" in kinds and fancy:
         return "newaxis+dask-array" if any(k in ("dalist", "dabool") for k in kinds) else "newaxis+fancy"
-    if any(k in ("dalist", "dabool") for k in kinds) and any(0 in c and len(c) > 1 for c in inp["chunks"]):
-        return "zero-chunk+dask-array"
     if "int" in kinds and fancy and got is not None:
         # NumPy counts integers as advanced indices: when a slice separates them from the array index the
         # broadcast dimension moves to the front; dask treats integers as basic indices (keeps the position).
@@ -435,6 +436,8 @@ def _apind_class(inp, x, got):
         alt = np.squeeze(x[tuple(idx2)], axis=tuple(squeeze))
         if alt.shape == got.shape and (alt == got).all():
             return "int+fancy-split"
+    if any(k in ("dalist", "dabool") for k in kinds) and any(0 in c and len(c) > 1 for c in inp["chunks"]):
+        return "zero-chunk+dask-array"
     return None
 
 
